@@ -84,7 +84,7 @@ func prelude(c *Ctx, w *sworld, max int) {
 type c01msg struct{ data []byte }
 
 func runFraming(c *Ctx) error {
-	c.Res.Rule = "random + boundary-weighted message sequences (0, 4 KiB flush threshold ±, 16 KiB ±, 1 MiB minus/plus the 16/32-byte GCM overhead), each assembled by SendMessage / SendPartialMessage+SendMessage / WriteMessage*+EndMessage in random compositions (every composition for messages ≤ 6 bytes), plaintext and AES-GCM, received by ReceiveCompleteMessage or StartMessageRead/ReadMessageBytes/EndMessageRead; distinct by op-sequence hash; non-trivial = ≥2 frames on the wire or a size within 64 bytes of a limit"
+	c.Res.Rule = "random + boundary-weighted message sequences (0, 4 KiB flush threshold ±, 16 KiB ±, 1 MiB minus/plus the 16/32-byte GCM overhead), each assembled by SendMessage / SendPartialMessage+SendMessage / WriteMessage*+EndMessage in random compositions (every composition for messages ≤ 6 bytes), plaintext and AES-GCM, received by ReceiveCompleteMessage or StartMessageRead/ReadMessageBytes/EndMessageRead or Message.GetRemainingBytes; + AES-GCM sessions restored through NewStreamWithCryptoState whose base IV word is within 5 frames of 2^32 (nonce word wraps mid-session), 3-9 messages in both directions, every sending style (single, partials, buffered, typed layer) × every receive API; distinct by op-sequence hash; non-trivial = ≥2 frames on the wire or a size within 64 bytes of a limit"
 	var cases []Case
 	n := c.Pick(700, 12000)
 	// exhaustive compositions of short messages (all ways to cut m bytes into writes), both modes
@@ -110,6 +110,11 @@ func runFraming(c *Ctx) error {
 	}
 	for i := 0; i < n; i++ {
 		cases = append(cases, framingRandom(c, i))
+	}
+	// sessions whose base IV word sits just below 2^32 (the IV is 16 random bytes: any word is possible),
+	// so that IV word + frame counter passes 2^32 in mid-session: several messages each way
+	for i := 0; i < c.Pick(60, 600); i++ {
+		cases = append(cases, framingWrap(c, i))
 	}
 	// accumulated size: ONE message of 1-3 MiB (only a single frame is bounded by MaxMessageSize)
 	// assembled from many partial sends / buffered writes / by the typed layer, position-dependent
@@ -322,6 +327,117 @@ func framingSetup(c *Ctx, enc bool) *sworld {
 	return w
 }
 
+// framingSetupWrap: both ends continue an established AES-GCM session (NewStreamWithCryptoState) whose
+// base IVs have a leading word within a few frames of 2^32 and whose counters are small: the nonce
+// word of each direction wraps after 0..5 more frames while the frame counter is nowhere near its limit.
+func framingSetupWrap(c *Ctx) *sworld {
+	w := newWorld()
+	var ivA, ivB [16]byte
+	copy(ivA[:], randBytes(c, 16))
+	copy(ivB[:], randBytes(c, 16))
+	ca, cb := uint32(1+c.Rng.Intn(3)), uint32(1+c.Rng.Intn(3))
+	// word + counter of the NEXT frame is 2^32 - r, r in 0..4 (r = 0: the next frame is the one that wraps)
+	binary.BigEndian.PutUint32(ivA[:4], uint32(0x100000000-uint64(c.Rng.Intn(5))-uint64(ca)))
+	binary.BigEndian.PutUint32(ivB[:4], uint32(0x100000000-uint64(c.Rng.Intn(5))-uint64(cb)))
+	fa := &blobFields{flags: 1 | 4 | 8, key: keyBytes(7), eiv: ivA, div: ivB, ectr: ca, dctr: cb, fs: make([]byte, 32), fr: make([]byte, 32)}
+	fb := &blobFields{flags: 1 | 4 | 8, key: keyBytes(7), eiv: ivB, div: ivA, ectr: cb, dctr: ca, fs: make([]byte, 32), fr: make([]byte, 32)}
+	_ = w.importBlob("A", buildBlob(fa))
+	_ = w.importBlob("B", buildBlob(fb))
+	return w
+}
+
+// framingWrap: 3-9 messages, either direction at random, each assembled by one of the sending styles
+// (single frame, explicit partial frames, buffered writes, the typed layer) and read by one of the
+// receive APIs (ReceiveCompleteMessage, StartMessageRead/ReadMessageBytes/EndMessageRead,
+// Message.GetRemainingBytes), on a session whose nonce words wrap past 2^32 on the way.
+func framingWrap(c *Ctx, idx int) Case {
+	w := framingSetupWrap(c)
+	nm := 3 + c.Rng.Intn(7)
+	for i := 0; i < nm && !w.dead; i++ {
+		from := "A"
+		if c.Rng.Intn(2) == 0 {
+			from = "B"
+		}
+		to := w.peer(from).name
+		var msg []byte
+		ok := true
+		style := c.Rng.Intn(4)
+		switch style {
+		case 0:
+			msg = payloadOf(c, pickSize(c, false))
+			ok = w.send(from, 1, msg) == nil
+		case 1:
+			for j := 0; j < 1+c.Rng.Intn(3) && ok; j++ {
+				d := payloadOf(c, pickSize(c, false)%300)
+				ok = w.send(from, 0, d) == nil
+				msg = append(msg, d...)
+			}
+			if ok {
+				d := payloadOf(c, c.Rng.Intn(40))
+				ok = w.send(from, 1, d) == nil
+				msg = append(msg, d...)
+			}
+		case 2:
+			w.start(from)
+			for j := 0; j < 1+c.Rng.Intn(4) && ok; j++ {
+				d := payloadOf(c, pickSize(c, false))
+				ok = w.write(from, d) == nil
+				msg = append(msg, d...)
+			}
+			ok = ok && w.end(from) == nil
+		default:
+			msg = payloadOf(c, pickSize(c, false))
+			ok = w.typedBytes(from, msg) == nil
+		}
+		if !ok {
+			c.Violate(Violation{Property: "C01", Key: "C01:sender-rejects:wrap-iv", What: "the sender refused a message of ordinary size on a session whose nonce word is near 2^32",
+				Ops: append([]string{}, w.ops...), Expected: "accepted", Observed: w.real[len(w.real)-1]})
+			break
+		}
+		api := c.Rng.Intn(3)
+		var got []byte
+		var err error
+		switch api {
+		case 0:
+			got, err = w.recvc(to)
+		case 1:
+			got, err = w.mrest(to)
+		default:
+			err = w.startread(to)
+			for err == nil {
+				var d []byte
+				d, err = w.read(to, 1+c.Rng.Intn(5000))
+				got = append(got, d...)
+				if isEOM(err) {
+					err = w.endread(to)
+					break
+				}
+			}
+		}
+		c.Count("wrap-iv:" + []string{"single", "partials", "writes", "typed"}[style] + ":" + []string{"recvc", "mrest", "incr"}[api])
+		if err != nil {
+			c.Violate(Violation{Property: "C01", Key: "C01:recv-rejects-accepted:wrap-iv:" + errKind(err),
+				What: "a message the sender accepted was rejected by the cedar receiver (session whose IV word + counter passes 2^32)", Ops: append([]string{}, w.ops...),
+				Expected: fmt.Sprintf("message %d of %d bytes delivered", i, len(msg)), Observed: "error class " + errKind(err)})
+			break
+		}
+		if !bytes.Equal(got, msg) {
+			c.Violate(Violation{Property: "C01", Key: "C01:bytes-differ:wrap-iv",
+				What: "received message differs from what was sent", Ops: append([]string{}, w.ops...),
+				Expected: orc.ShowBytes(msg), Observed: orc.ShowBytes(got)})
+			break
+		}
+	}
+	w.finish()
+	c.Distinct(strings.Join(w.ops, "\n"), true)
+	c.Count("kind:wrap-iv")
+	c.Count("mode:enc")
+	if idx == 0 {
+		c.Sample(map[string]any{"label": "wrap-iv", "ops": abbreviate(w.ops), "real": abbreviate(w.real)})
+	}
+	return Case{Label: fmt.Sprintf("wrap-iv#%d", idx), Ops: w.ops, Real: w.real}
+}
+
 func framingComposition(c *Ctx, enc bool, m, mask int) Case {
 	w := framingSetup(c, enc)
 	data := randBytes(c, m)
@@ -359,6 +475,10 @@ func framingBand(c *Ctx, enc bool, size int, later bool) Case {
 func framingRandom(c *Ctx, idx int) Case {
 	enc := c.Rng.Intn(2) == 1
 	w := framingSetup(c, enc)
+	if enc && c.Rng.Intn(5) == 0 {
+		w = framingSetupWrap(c) // the same histories on a session whose nonce word wraps
+		c.Count("random:on-wrap-session")
+	}
 	nm := 1 + c.Rng.Intn(4)
 	var sent [][]byte
 	frames := 0
